@@ -133,6 +133,18 @@ def programs(reqbuf, quick):
     stateful("chdir", ["chdir(p: string) -> int"], ["a: int = 0", "b: int = 0", "c: int = 0", "r: int = 0"],
              ["set a (str_length (getcwd))", "set r (chdir \"c15.dir3\")", "set b (str_length (getcwd))", "set r (+ r (chdir \"..\"))", "set c (str_length (getcwd))"],
              ["(- b a)", "(- c a)", "r"])
+    # libm / libc functions that are not builtins of this tree, reached through user declarations (same transfer path)
+    def userext(name, decl, calls, klass, argsize):
+        src = "extern fn %s\n" % decl + HELPERS + "fn main() -> int {\n    (println \"begin\")\n" + \
+            "".join("    unsafe { (println %s) }\n" % c for c in calls) + "    (println \"end\")\n    return 0\n}\nshadow main { assert true }\n"
+        P.append(("userext." + name, "extern:" + name, klass, argsize, src))
+    for f in ["asin", "acos", "atan", "log", "log2", "log10", "exp", "cbrt", "fabs", "trunc"]:
+        userext(f, "%s(x: float) -> float" % f, ["(%s %s)" % (f, x) for x in FLOATS], "float", 9)
+    for f in ["fmod", "hypot", "copysign", "fmax"]:
+        userext(f, "%s(x: float, y: float) -> float" % f, ["(%s %s %s)" % (f, a, b) for a in FLOATS[:13:2] for b in FLOATS[1:13:2]], "float", 18)
+    userext("strlen", "strlen(s: string) -> int", ["(strlen (rep %d))" % n for n in lens], "str", 5 + max(lens))
+    userext("getenv", "getenv(name: string) -> string", ['(getenv "NLVERIF_C15")', '(str_length (getenv "NLVERIF_C15_LONG"))'], "str", 40)
+    userext("atoi_labs", "labs(x: int) -> int", ["(labs %s)" % lit(i) for i in INT_ANY], "int", 9)
     # arrays as arguments of a user-declared extern, elements of unequal encoded size (the request is sized from the arguments)
     def arrarg(name, ety, lits):
         decl = "extern fn dyn_array_length(a: array<%s>) -> int\n" % ety
